@@ -1539,7 +1539,7 @@ def rule_blocks(rep, inst, R="C03.blocks"):
 
 # ---------------------------------------------------------------------------------------------------------------------
 # C03.cover - whole-buffer loops visit every block exactly once
-def tail_block_mask(d, inst, fn, loop, names, linit):
+def tail_block_mask(d, inst, fn, loop, names, linit, sizes=None):
     """-> True if the last block is read after `loop` and whatever mask is applied to it keeps all the bits below size(); a text if a bit is lost;
     None if the treatment is not recognised"""
     from .. import ceval
@@ -1582,7 +1582,7 @@ def tail_block_mask(d, inst, fn, loop, names, linit):
         while node.get("kind") == "DeclRefExpr" and (node.get("referencedDecl") or {}).get("id") in linit and hops < 3:
             node = ir.strip(linit[(node.get("referencedDecl") or {}).get("id")])
             hops += 1
-        for size in range(1, 2 * W + 1):
+        for size in (sizes if sizes is not None else range(1, 2 * W + 1)):
             want = full if size % W == 0 else (1 << (size % W)) - 1
             try:
                 got = ceval.ev(node, ceval.Ctx(d, {}, {"m_size": size})) & full
@@ -1596,11 +1596,53 @@ def tail_block_mask(d, inst, fn, loop, names, linit):
     return True
 
 
+def fold_block_indices(d, inst, fn, loop, vdecl, cond):
+    """the set of block indices the loop visits, folded for every size 0..2W+1 -> {size: [indices]} or None if the bounds are not foldable"""
+    from .. import ceval
+    W = inst.W
+    out = {}
+    pre = []
+    for n in ir.walk_expr(ir.body(fn)):
+        if n.get("id") == loop.get("id"):
+            break
+        if n.get("kind") == "VarDecl" and ir.ekids(n) and trange.type_range(ir.qtype(n)) is not None:
+            pre.append(n)
+    for size in range(0, 2 * W + 2):
+        nb = (size + W - 1) // W
+
+        def ctx(env):
+            c = ceval.Ctx(d, env, {"m_size": size})
+            c.call_values = {("call", ("mem", ("mem", ("this",), "m_buffer"), "size")): nb}
+            return c
+        env = {}
+        for v in pre:
+            try:
+                env[v.get("id")] = ceval.conv(ceval.ev(ir.ekids(v)[-1], ctx(env)), ir.qtype(v))
+            except (ceval.Unknown, ceval.UB):
+                pass
+        try:
+            i = ceval.conv(ceval.ev(ir.ekids(vdecl)[-1], ctx(env)), ir.qtype(vdecl))
+            idx = []
+            while len(idx) <= 4 * W + 8:
+                e2 = dict(env)
+                e2[vdecl.get("id")] = i
+                if not ceval.ev(cond, ctx(e2)):
+                    break
+                idx.append(i)
+                i += 1
+            if len(idx) > 4 * W + 8:
+                return None
+            out[size] = idx
+        except (ceval.Unknown, ceval.UB):
+            return None
+    return out
+
+
 def rule_cover(rep, inst, R="C03.cover"):
     d = inst.d
     COUNT = (("call", ("mem", ("this",), "block_count")), ("call", ("mem", ("mem", ("this",), "m_buffer"), "size")))
     for cname, kind, fn in inst.fns:
-        if cname != "xdynamic_bitset_base" or fn.get("name") in ("operator<<=", "operator>>=", "count"):
+        if cname != "xdynamic_bitset_base" or fn.get("name") in ("operator<<=", "operator>>="):
             continue
         loops = [n for n in ir.walk_expr(fn) if n.get("kind") == "ForStmt"]
         if not loops:
@@ -1615,9 +1657,51 @@ def rule_cover(rep, inst, R="C03.cover"):
             if len(vds) != 1:
                 continue
             v = vds[0].get("name")
+            # pointer locals bound to the block buffer (`const block_type* b = m_buffer.data();`)
+            bufptrs = {x.get("name") for x in ir.walk_expr(fn) if x.get("kind") == "VarDecl" and ir.ekids(x) and "*" in ir.qtype(x) and
+                       any(t_ == ("call", ("mem", ("mem", ("this",), "m_buffer"), "data")) for t_ in ir.subterms(ir.sx(ir.ekids(x)[-1])))}
             uses = [n for n in ir.walk_expr(raw[4]) if n.get("kind") in ("CXXOperatorCallExpr", "ArraySubscriptExpr")
-                    and ir.sx(n)[0] == "index" and ir.sx(n)[1] == ("mem", ("this",), "m_buffer") and ir.sx(n)[2] == ("ref", v)]
+                    and ir.sx(n)[0] == "index" and (ir.sx(n)[1] == ("mem", ("this",), "m_buffer") or (ir.sx(n)[1][0] == "ref" and ir.sx(n)[1][1] in bufptrs)) and ir.sx(n)[2] == ("ref", v)]
             if not uses:
+                continue
+            # decided on the folded index sets where the bounds fold: for every size 0..2W+1 the loop visits exactly the blocks of the buffer
+            # (or all but the last, which is then treated separately)
+            cons0 = "loop `%s`" % d.text(loop).split("{")[0].strip()[:60]
+            inc0 = ir.sx(inc) if isinstance(inc, dict) and inc.get("kind") else None
+            folded = None
+            if isinstance(cond, dict) and cond.get("kind") and inc0 is not None and inc0[0] == "un" and inc0[1] in ("++", "post++") and inc0[2] == ("ref", v) and ir.ekids(vds[0]):
+                folded = fold_block_indices(d, inst, fn, loop, vds[0], cond)
+            if folded is not None:
+                W_ = inst.W
+                over = short = gap = None
+                short_sizes = []
+                for size, idx in sorted(folded.items()):
+                    nb = (size + W_ - 1) // W_
+                    if any(i_ >= nb or i_ < 0 for i_ in idx):
+                        over = over or (size, [i_ for i_ in idx if i_ >= nb or i_ < 0][0], nb)
+                    elif idx == list(range(nb)):
+                        pass
+                    elif nb >= 1 and idx == list(range(nb - 1)):
+                        short_sizes.append(size)
+                    else:
+                        missing = [i_ for i_ in range(nb) if i_ not in idx]
+                        gap = gap or (size, missing[0] if missing else None, nb)
+                if over:
+                    rep.violates(R, lab, cons0, where=d.where(loop), scenario="size() = %d" % over[0],
+                                 detail="the loop visits block %d of a buffer of %d block(s): outside the bitset" % (over[1], over[2]))
+                elif gap:
+                    rep.violates(R, lab, cons0, where=d.where(loop), scenario="size() = %d" % gap[0],
+                                 detail="block %s of %d is never visited: some block is never examined/updated" % (gap[1], gap[2]))
+                elif short_sizes:
+                    verdict = tail_block_mask(d, inst, fn, loop, names, linit, short_sizes)
+                    if verdict is True:
+                        rep.holds(R, lab, cons0, where=d.where(loop), detail="blocks 0 .. block_count()-2 in the loop, the last one separately (sizes %s..)" % short_sizes[:3])
+                    elif verdict is None:
+                        rep.inconclusive(R, lab, cons0, where=d.where(loop), detail="stops one block early for sizes %s..; the separate treatment of the last block was not recognised" % short_sizes[:3])
+                    else:
+                        rep.violates(R, lab, cons0, where=d.where(loop), scenario="size() = %d" % short_sizes[0], detail="the loop stops one block early and %s" % verdict)
+                else:
+                    rep.holds(R, lab, cons0, where=d.where(loop), detail="blocks 0 .. block_count()-1 for every size 0..%d (bounds folded)" % (2 * W_ + 1))
                 continue
             c = ir.sx(cond) if isinstance(cond, dict) and cond.get("kind") else None
             it = ir.sx(inc) if isinstance(inc, dict) and inc.get("kind") else None
@@ -1965,16 +2049,45 @@ def run(tier):
     want = {trange.ALIASES[b] for b in blocks}
     if set(insts) != want:
         raise cj.AnalysisBroken("expected instantiations for %s, found %s" % (sorted(want), sorted(insts)))
+    def all_rules(rp, inst):
+        rule_helpers(rp, inst)
+        flows = shift_analysis(rp, inst)
+        rule_canon(rp, inst, flows)
+        rule_at(rp, inst)
+        rule_empty(rp, inst)
+        rule_blocks(rp, inst)
+        rule_grow(rp, inst)
+        rule_cover(rp, inst)
+        rule_cmp(rp, inst)
     for bt in sorted(insts, key=lambda b: WIDTH[b]):
         inst = insts[bt]
         rep.unit("block type %s: %d member instantiations" % (bt, len(inst.fns)))
-        rule_helpers(rep, inst)
-        flows = shift_analysis(rep, inst)
-        rule_canon(rep, inst, flows)
-        rule_at(rep, inst)
-        rule_empty(rep, inst)
-        rule_blocks(rep, inst)
-        rule_grow(rep, inst)
-        rule_cover(rep, inst)
-        rule_cmp(rep, inst)
+        all_rules(rep, inst)
+    # code selected by the language level (feature-test macros, `#if __cplusplus`): the narrowest block type again under the other standards
+    for std in (("gnu++20",) if tier == "quick" else ("gnu++14", "gnu++20")):
+        d2 = cj.dump(driver(["std::uint8_t"]), "xtl::", std=std)
+        rep.cmd(d2.cmd)
+        i2 = gather(d2).get("unsigned char")
+        if i2 is None:
+            raise cj.AnalysisBroken("no instantiation for unsigned char under -std=%s" % std)
+        rep.unit("block type unsigned char under -std=%s: %d member instantiations" % (std, len(i2.fns)))
+        all_rules(_Suffix(rep, " [-std=%s]" % std), i2)
     return rep
+
+
+class _Suffix:
+    """forwards to a Report, marking the function label with the configuration the instance was decided under"""
+    def __init__(self, rep, suffix):
+        self._rep, self._sfx = rep, suffix
+
+    def holds(self, r, fn, *a, **k):
+        return self._rep.holds(r, fn + self._sfx, *a, **k)
+
+    def violates(self, r, fn, *a, **k):
+        return self._rep.violates(r, fn + self._sfx, *a, **k)
+
+    def inconclusive(self, r, fn, *a, **k):
+        return self._rep.inconclusive(r, fn + self._sfx, *a, **k)
+
+    def __getattr__(self, name):
+        return getattr(self._rep, name)
